@@ -368,21 +368,622 @@ def replay_full(exe, ops):
     return res
 
 
+# ------------------------------------------------------------------ monitors (exact, on the real providers)
+
+import c09 as L9            # acceptance test / dense BFGS in exact rationals (independent of the Lean model)
+
+TOL = Fr(1, 2 ** 30)
+STATS = {}
+
+
+def bump(k, n=1):
+    STATS[k] = STATS.get(k, 0) + n
+
+
+def fin(v):
+    return all(math.isfinite(a) for a in v)
+
+
+def bits(v):
+    return [f2h(a) for a in v]
+
+
+def parse_lbfgs_dump(t):
+    """`L n history cur nf fwd… rev… (s y ρ)…` → dict"""
+    if t.tok() != 'L':
+        raise ValueError('dump')
+    n, hist, cur, nf = t.nat(), t.nat(), t.nat(), t.nat()
+    fwd = [t.nat() for _ in range(nf)]
+    rev = [t.nat() for _ in range(nf)]
+    pairs = []
+    for _ in range(nf):
+        sv = t.vec(); yv = t.vec(); rho = t.flt()
+        pairs.append((sv, yv, rho))
+    return dict(n=n, hist=hist, cur=cur, fwd=fwd, rev=rev, pairs=pairs)
+
+
+def parse_aa_dump(t):
+    if t.tok() != 'A':
+        raise ValueError('dump')
+    init, n, m = t.nat(), t.nat(), t.nat()
+    d = dict(init=init, n=n, m=m)
+    if not init:
+        return d
+    d.update(K=t.nat(), head=t.nat(), tail=t.nat(), mineig=t.flt(), maxeig=t.flt())
+    for k in ('G', 'rl', 'gam', 'R', 'Q'):
+        if t.tok() != '|':
+            raise ValueError('dump')
+        d[k] = t.vec()
+    return d
+
+
+def lbfgs_P(kv):
+    return dict(m=int(kv.get('mem', 5)), mdf=h2f(kv['mdf']) if 'mdf' in kv else EPS,
+                mas=h2f(kv['mas']) if 'mas' in kv else EPS * EPS, ca=h2f(kv['ca']) if 'ca' in kv else 1.0,
+                ce=h2f(kv['ce']) if 'ce' in kv else 0.0, fpd=int(kv.get('fpd', 1)) != 0,
+                curv=int(kv.get('curv', 1)) != 0)
+
+
+def box_J(kv, gam, x, g):
+    """eval_inactive_indices_res_lna of BoxConstrProblem, as documented, on the doubles it is given."""
+    lb, ub, l1 = S.parse_kvvec(kv['Clb']), S.parse_kvvec(kv['Cub']), S.parse_kvvec(kv['l1'])
+    J = []
+    for i in range(len(x)):
+        xfw = x[i] - gam * g[i]
+        lam = 0.0 if not l1 else (l1[0] if len(l1) == 1 else l1[i])
+        if lam == 0:
+            v = xfw
+        elif xfw > gam * lam:
+            v = xfw - gam * lam
+        elif xfw < -gam * lam:
+            v = xfw + gam * lam
+        else:
+            continue
+        if lb[i] < v < ub[i]:
+            J.append(i)
+    return J
+
+
+def dense_apply(hist, g0, q, n):
+    """exact H(g0; hist)·q and its conditioning scale, or None when undefined"""
+    if any(L9.xdot(y, s_) == 0 for s_, y in hist):
+        return None
+    H0, H1, msg = L9.dense_pair(hist, n)
+    if H0 is None:
+        return None
+    sc = L9.two_loop_scale(hist, g0, q)
+    r = [sum((H0[i][j] + g0 * (H1[i][j] - H0[i][j])) * Fr(q[j]) for j in range(n)) for i in range(n)]
+    return r, sc
+
+
+def close(got, exp, sc):
+    for i, (a, e) in enumerate(zip(got, exp)):
+        if not math.isfinite(a) or abs(Fr(a) - e) > TOL * max(sc, Fr(1, 2 ** 200)):
+            return i
+    return None
+
+
+def _monitor(op, out, st):
+    t = S.T(op.split())
+    kind = t.tok()
+    res = strip_ev(out)
+    if ' | ' not in res:
+        return f'harness: {res[:100]}'
+    if kind == 'new':
+        kv = dict(w.split('=', 1) for w in op.split()[1:])
+        st.clear()
+        st.update(kv=kv, d=kv['dir'], n=int(kv['n']), hist=[], inited=False, dead=False, P=lbfgs_P(kv),
+                  aa=None)
+        bump('new_' + kv['dir'])
+        return None
+    if 'kv' not in st:
+        return None
+    kv, d, n = st['kv'], st['d'], st['n']
+    head, _, dump = res.partition(' | ')
+    o = S.T(head.split())
+    dt = S.T(dump.split())
+    evs = [sec.split()[1:] for sec in out.split(' ; ')[1:] if sec.startswith('EV ')]
+    rescale = int(kv.get('rescale', 0)) != 0
+    # ---------------- has_initial_direction: none of the shipped providers has one
+    if kind == 'hasinit':
+        return None if head == '0' else f'{d}: has_initial_direction() returned {head}'
+    if kind == 'init':
+        thr = init_throws(kv)
+        if (head == 'exception') != thr:
+            return f'{d}: initialize {"threw" if head == "exception" else "did not throw"}; documented: throws={thr}'
+        if thr:
+            st['dead'] = True
+            return None
+        st['inited'] = True
+        st['hist'] = []
+        args = (t.flt(), t.vec(), t.vec(), t.vec(), t.vec())
+        if d == 'anderson':
+            st['aa'] = dict(g=[args[2]], dr=[], rl=args[3])
+        return check_state(st, dt)
+    if st['dead']:
+        return None
+    if d == 'noop':
+        if kind == 'upd':
+            return None if head == '1' else 'NoopDirection::update returned false'
+        if kind == 'app':
+            g_, x, xh, p, g, q0 = t.flt(), t.vec(), t.vec(), t.vec(), t.vec(), t.vec()
+            ok = o.tok() == '1'
+            q = o.vec()
+            if ok or bits(q) != bits(q0):
+                return 'NoopDirection::apply succeeded or modified q'
+            bump('noop_apply')
+        return None
+    if kind == 'reset':
+        st['hist'] = []
+        if st['aa'] is not None:
+            st['aa'].update(g=st['aa']['g'][-1:], dr=[])
+        return check_state(st, dt)
+    if kind == 'chg':
+        gam, old = t.flt(), t.flt()
+        f = gam / old if old != 0 else (NAN if gam == 0 or gam != gam else math.copysign(INF, gam) * math.copysign(1, old))
+        if d == 'lbfgs':
+            st['hist'] = [(s_, [v * f for v in y]) for s_, y in st['hist']] if rescale else []
+            bump('lbfgs_chg_rescale' if rescale else 'lbfgs_chg_flush')
+        elif d == 'anderson' and st['aa'] is not None:
+            if rescale:
+                st['aa']['dr'] = [[v * f for v in c] for c in st['aa']['dr']]
+                st['aa']['scaled'] = True
+            else:
+                st['aa'].update(g=st['aa']['g'][-1:], dr=[])
+            bump('anderson_chg_rescale' if rescale else 'anderson_chg_flush')
+        # structured: nothing happens
+        return check_state(st, dt)
+    if kind == 'upd':
+        gk_, gn_ = t.flt(), t.flt()
+        xk, xn, pk, pn, gk, gn = (t.vec() for _ in range(6))
+        stored = head == '1'
+        if d == 'anderson':
+            return None if stored else 'AndersonDirection::update returned false'
+        P = st['P']
+        s_ = L9.fsub(xn, xk)
+        if d == 'lbfgs':
+            y = L9.fsub(pk, pn)
+            pTp = float(L9.xdot(pn, pn)) if P['ce'] > 0 and fin(pn) else 0.0
+            if fin(s_) and fin(y):
+                dec, amb = L9.accept_exact(P, s_, y, pTp)
+                if not amb and stored != dec:
+                    return (f'LBFGSDirection::update stored={stored}, documented curvature test on '
+                            f's = xₙₑₓₜ−xₖ, y = pₖ−pₙₑₓₜ says {dec} (yᵀs={float(L9.xdot(y, s_))!r}, '
+                            f'sᵀs={float(L9.xdot(s_, s_))!r})')
+                bump('lbfgs_upd_rejected' if not stored else 'lbfgs_upd_stored')
+        else:
+            y = L9.fsub(gn, gk)
+            if not stored:
+                return 'StructuredLBFGSDirection::update did not store the (forced) pair'
+            bump('slbfgs_upd')
+        if stored:
+            st['hist'].append((s_, y))
+            if len(st['hist']) > P['m']:
+                del st['hist'][0]
+                bump(d + '_wraparound')
+        return check_state(st, dt)
+    if kind == 'app':
+        gam, x, xh, p, g, q0 = t.flt(), t.vec(), t.vec(), t.vec(), t.vec(), t.vec()
+        if head == 'exception':
+            if d == 'anderson' and not st['inited']:
+                bump('anderson_apply_before_init')
+                return None
+            if d == 'slbfgs' and st['P']['ce'] > 0 and st['hist']:
+                bump('slbfgs_cbfgs_throw')
+                return None
+            return f'{d}: apply threw'
+        ok = o.tok() == '1'
+        q = o.vec()
+        hist = st['hist']
+        P = st['P']
+        allfin = fin(x) and fin(xh) and fin(p) and fin(g) and math.isfinite(gam) and \
+            all(fin(a) and fin(b) for a, b in hist)
+        if d == 'lbfgs':
+            m = check_state(st, dt)
+            if m:
+                return m
+            if ok != bool(hist):
+                return f'LBFGSDirection::apply returned {ok} with {len(hist)} stored pairs'
+            if not hist:
+                bump('lbfgs_apply_empty')
+                return None if bits(q) == bits(p) else 'LBFGSDirection::apply (empty buffer) did not leave q = p'
+            if not allfin:
+                return None
+            s_n, y_n = hist[-1]
+            if P['curv'] or gam < 0:
+                yy = L9.xdot(y_n, y_n)
+                if yy == 0:
+                    return None
+                g0 = L9.xdot(y_n, s_n) / yy
+            else:
+                g0 = Fr(gam)
+            da = dense_apply(hist, g0, p, n)
+            if da is None:
+                return None
+            i = close(q, *da)
+            bump('lbfgs_apply_dense')
+            if i is not None:
+                return (f'LBFGSDirection::apply: q[{i}] = {q[i]!r} but dense BFGS H·p over the {len(hist)} stored pairs '
+                        f'(γ₀ = {float(g0)!r}) gives {float(da[0][i])!r}')
+            return None
+        if d == 'slbfgs':
+            m = check_state(st, dt)
+            if m:
+                return m
+            if not (fin(x) and fin(g) and math.isfinite(gam)):
+                return None
+            J = box_J(kv, gam, x, g)
+            K = [j for j in range(n) if j not in J]
+            hvf = h2f(kv.get('hvf', f2h(0.0)))
+            fpol = int(kv.get('fpol', 0))
+            if not J:
+                bump('slbfgs_J_empty')
+                if ok or bits(q) != bits(q0):
+                    return 'StructuredLBFGSDirection::apply with J = ∅ succeeded or modified q'
+                return None
+            if len(J) == n:
+                bump('slbfgs_J_full')
+                if not gam > 0:
+                    return None
+                rhs = [(1.0 / gam) * v for v in p]
+                if ok != bool(hist):
+                    return f'StructuredLBFGSDirection::apply (all indices free) returned {ok} with {len(hist)} pairs'
+                if not hist:
+                    return None if bits(q) == bits(rhs) else 'all indices free, empty buffer: q ≠ p/γ'
+                if not allfin:
+                    return None
+                s_n, y_n = hist[-1]
+                if P['curv'] or gam < 0:
+                    yy = L9.xdot(y_n, y_n)
+                    if yy == 0:
+                        return None
+                    g0 = L9.xdot(y_n, s_n) / yy
+                else:
+                    g0 = Fr(gam)
+                da = dense_apply(hist, g0, rhs, n)
+                if da is None:
+                    return None
+                i = close(q, *da)
+                if i is not None:
+                    return (f'StructuredLBFGSDirection::apply (all free): q[{i}] = {q[i]!r}, dense H·(p/γ) = '
+                            f'{float(da[0][i])!r}')
+                return None
+            bump('slbfgs_J_partial')
+            # fixed part: q_K = p_K exactly
+            for j in K:
+                if f2h(q[j]) != f2h(p[j]):
+                    return (f'StructuredLBFGSDirection::apply: active index {j} ∉ J={J}: q[{j}] = {q[j]!r} ≠ p[{j}] = '
+                            f'{p[j]!r}')
+            if not gam > 0:
+                return None
+            # right-hand side on J (the Hessian-vector product is what the problem returned: last inner call)
+            Hq = None
+            if hvf != 0:
+                prod = [e for e in evs if e and e[0] in ('igradpsi', 'ihessL', 'ihesspsi')]
+                if not prod:
+                    return 'hessian_vec_factor ≠ 0 but no Hessian-vector product / gradient was evaluated'
+                bump('slbfgs_hv_' + prod[0][0])
+                # the vector the product was taken with must be p on K and 0 on J
+                if prod[0][0] in ('ihessL', 'ihesspsi'):
+                    tt = S.T(prod[0][1:]); tt.vec(); tt.tok(); v = tt.vec()
+                    want = [0.0 if j in J else p[j] for j in range(n)]
+                    if bits(v) != bits(want):
+                        return f'Hessian-vector product taken with {v}, expected p on K and 0 on J: {want}'
+            if not hist:
+                # apply_masked fails on an empty buffer; the failure policy decides
+                bump('slbfgs_failure_policy_%d' % fpol)
+                if ok != (fpol == 1):
+                    return f'empty buffer, failure_policy={fpol}, but apply returned {ok}'
+                if hvf == 0:
+                    rhs = [(1.0 / gam) * p[j] for j in J]
+                    exp = [v * gam for v in rhs] if fpol == 1 else rhs
+                    if bits([q[j] for j in J]) != bits(exp):
+                        return (f'empty buffer, failure_policy={fpol}: q_J = {[q[j] for j in J]}, documented '
+                                f'{"γ·" if fpol == 1 else ""}(p_J/γ) = {exp}')
+                return None
+            if P['ce'] > 0:
+                return 'apply_masked did not throw although CBFGS is enabled'
+            if not allfin or not fin(q):
+                return None
+            decs = [L9.accept_exact(P, s_, y, 0.0, J) for s_, y in hist]
+            if any(a for _, a in decs) or not P['fpd'] or P['mdf'] < 0:
+                return None
+            sub = [([s_[j] for j in J], [y[j] for j in J]) for (s_, y), (dd, _) in zip(hist, decs) if dd]
+            if P['curv'] or gam < 0:
+                if not sub:
+                    bump('slbfgs_failure_policy_%d' % fpol)
+                    if ok != (fpol == 1):
+                        return (f'apply_masked had no pair valid on J={J}; failure_policy={fpol} but apply returned {ok}')
+                    return None
+                g0 = L9.xdot(sub[-1][1], sub[-1][0]) / L9.xdot(sub[-1][1], sub[-1][1])
+            else:
+                g0 = Fr(gam)
+            if g0 < 0:
+                return None
+            if not ok:
+                return f'StructuredLBFGSDirection::apply failed although {len(sub)} pairs are valid on J={J}'
+            if hvf != 0:
+                return None            # rhs_J involves the product; its J-part is covered by the correspondence
+            rhsJ = [(1.0 / gam) * p[j] for j in J]
+            da = dense_apply(sub, g0, rhsJ, len(J))
+            if da is None:
+                return None
+            i = close([q[j] for j in J], *da)
+            bump('slbfgs_partial_dense')
+            if i is not None:
+                return (f'StructuredLBFGSDirection::apply: q[{J[i]}] = {q[J[i]]!r} but the dense BFGS operator of the '
+                        f'{len(sub)} pairs valid on J={J}, restricted to J, applied to p_J/γ gives {float(da[0][i])!r}')
+            return None
+        if d == 'anderson':
+            A = st['aa']
+            if not ok:
+                return 'AndersonDirection::apply returned false'
+            mAA = min(n, int(kv.get('mem', 5)))
+            newcol = [a - b for a, b in zip(p, A['rl'])]
+            if len(A['dr']) == mAA:
+                A['dr'] = A['dr'][1:]; A['g'] = A['g'][1:]
+            A['dr'].append(newcol); A['g'].append(xh); A['rl'] = p
+            m = check_state(st, dt)
+            if m:
+                return m
+            dd = parse_aa_dump(S.T(dump.split()))
+            K = len(A['dr'])
+            gam_ls = dd['gam']
+            if not (fin(gam_ls) and fin(q) and fin(x) and all(fin(c) for c in A['g'])):
+                return None
+            gq = [Fr(v) for v in gam_ls]
+            al = [gq[0]] + [gq[i] - gq[i - 1] for i in range(1, K)] + [1 - gq[K - 1]]
+            G = A['g'][-(K + 1):]
+            for j in range(n):
+                ex = sum(al[i] * Fr(G[i][j]) for i in range(K + 1)) - Fr(x[j])
+                mag = sum(abs(al[i]) * abs(Fr(G[i][j])) for i in range(K + 1)) + abs(Fr(x[j])) + \
+                    sum(abs(v) for v in gq) * max(abs(Fr(G[i][j])) for i in range(K + 1))
+                if abs(Fr(q[j]) - ex) > 8 * (K + 3) * EPS * float(mag) + 1e-300:
+                    return (f'AndersonDirection::apply: q[{j}] = {q[j]!r} is not (Σ αᵢ x̂ᵢ − x)[{j}] = {float(ex)!r} '
+                            f'with α from γ_LS = {gam_ls}')
+            bump('anderson_apply_affine')
+            return None
+    return None
+
+
+def check_state(st, dt):
+    """The accelerator inside the provider holds what the documented bookkeeping says."""
+    d = st['d']
+    if d in ('lbfgs', 'slbfgs'):
+        try:
+            dd = parse_lbfgs_dump(dt)
+        except (ValueError, IndexError):
+            return 'unreadable L-BFGS dump'
+        if not st['inited']:
+            return None
+        hist = st['hist']
+        if dd['cur'] != len(hist) or len(dd['pairs']) != len(hist):
+            return (f'{d}: buffer holds {dd["cur"]} pairs, {len(hist)} expected '
+                    f'(accepted updates since the last flush, at most memory={st["P"]["m"]})')
+        if dd['fwd'] != dd['rev'][::-1]:
+            return 'foreach_fwd / foreach_rev orders differ'
+        for k, ((s_, y), (s2, y2, rho)) in enumerate(zip(hist, dd['pairs'])):
+            if bits(s2) != bits(s_) or bits(y2) != bits(y):
+                return (f'{d}: stored pair #{k} (oldest first) is s={s2} y={y2}, expected s={s_} y={y}')
+        return None
+    if d == 'anderson':
+        try:
+            dd = parse_aa_dump(dt)
+        except (ValueError, IndexError):
+            return 'unreadable Anderson dump'
+        A = st['aa']
+        if A is None:
+            return None if not dd['init'] else 'accelerator initialised before initialize()'
+        n = st['n']
+        mAA = min(n, int(st['kv'].get('mem', 5)))
+        if (dd['n'], dd['m']) != (n, mAA):
+            return f'AndersonAccel sizes {(dd["n"], dd["m"])}, expected {(n, mAA)}'
+        K = len(A['dr'])
+        if dd['K'] != K:
+            return f'Anderson window holds {dd["K"]} residual differences, expected {K}'
+        cols = [dd['G'][i * n:(i + 1) * n] for i in range(K + 1)]
+        exp = [list(c) for c in A['g'][-(K + 1):]]
+        if K == mAA and K > 0:
+            exp[0] = exp[-1]
+        if len(cols) != len(exp) or any(bits(a) != bits(b) for a, b in zip(cols, exp)):
+            return f'Anderson G ring holds {cols}, expected the last function values x̂: {exp}'
+        if bits(dd['rl']) != bits(A['rl']):
+            return f'Anderson r_last = {dd["rl"]}, expected the last residual p = {A["rl"]}'
+        return None
+    return None
+
+
+def monitor(op, out, st):
+    if op.startswith('new '):
+        st['seq'] = []
+    seq = st.get('seq') or []
+    try:
+        m = _monitor(op, out, st)
+    except (IndexError, ValueError, KeyError, ZeroDivisionError, OverflowError) as e:
+        m = f'monitor could not read the output {strip_ev(out)[:120]!r}: {e!r}'
+    st['seq'] = seq
+    seq.append(op)
+    if m:
+        shown = seq if len(seq) <= 40 else seq[:1] + ['…'] + seq[-39:]
+        return m + ' || op sequence: ' + ' ; '.join(x[:400] for x in shown)
+    return None
+
+
+# ------------------------------------------------------------------ the check
+
+TRUSTED = [
+    'Lean 4.33 kernel + Mathlib (axioms: propext, Classical.choice, Quot.sound)',
+    'gen/cxxparse.py + gen/lean_emit.py + gen/gen_dirs.py (translator: every argument list, branch condition and '
+    'componentwise statement of noop.hpp / lbfgs.hpp / anderson.hpp / structured-lbfgs.hpp / structured-lbfgs.tpp and '
+    'calc_augmented_lagrangian_hessian_prod_fd → Lean; control skeleton of StructuredLBFGSDirection::apply / '
+    'approximate_hessian_vec_term shape-checked)',
+    'hand-written skeleton Alpaqa/Model/Directions.lean on top of the C09 (LBFGS), C10 (AndersonAccel) and C15 '
+    '(inactive indices) models; tied by bit-exact op-sequence correspondence on the real provider objects and by the '
+    'oracle-free PANOC replay, on the explored sequences / runs only',
+    'the problem functions the structured provider calls inside apply (eval_grad_ψ, eval_hess_L_prod, eval_hess_ψ_prod, '
+    'eval_g, eval_grad_gi) are oracles; std::cbrt(ε) is a parameter of the model (Float.cbrt in the drivers)',
+    'theorems over ordered fields (real-number semantics): IEEE rounding, NaN markers and exceptions are covered by '
+    'the correspondence, not by the theorems',
+]
+
+
+def extra_stage(rep, broken, exe, tier, *, with_proof=False):
+    """Stages 2–4 (and, stand-alone, stage 1).  Appends to `broken`, records violations in `rep`."""
+    thorough = tier == 'thorough'
+    if with_proof:
+        ps = C.proof_stage(rep, rep.pid, GEN_SCRIPTS, MODULES, driver=DRIVER, extra_sources=EXTRA_SOURCES,
+                           extra_targets=[DRIVER_FULL])
+        broken.extend(ps['broken'])
+    else:
+        r = C.run_gen('gen_dirs.py')
+        if not r.get('ok'):
+            broken.append(f'translator gen_dirs.py: {r.get("error")}')
+        ok, out = C.lake_build(MODULES + [DRIVER, DRIVER_FULL])
+        if not ok:
+            broken.extend('lake build: ' + e for e in C.failing_decls(out))
+        rep.cov.setdefault('translator_regions', {})['gen_dirs.py'] = r.get('regions') if r.get('ok') else r.get('error')
+    found = False
+    # ---- op-sequence correspondence + monitors on the real providers
+    dexe, log = build_harness()
+    if dexe is None:
+        broken.append('dirs harness does not compile against the working tree: ' + (log or '')[-1200:])
+    else:
+        rng = random.Random(C.seed() * 1000003 + (29 if thorough else 11))
+        ops = gen_ops(rng, 200000 if thorough else 30000)
+        hout, i, dout, err = correspondence(dexe, ops)
+        rep.cov['evaluations'] += len(hout)
+        if err:
+            if 'crashed' in err:
+                rep.violation('[dirs] ' + err, {'op': ops[i] if i < len(ops) else None}, True)
+                found = True
+            else:
+                broken.append('[dirs] ' + err)
+        elif i is not None:
+            j = max(k for k in range(min(i, len(ops) - 1) + 1) if ops[k].startswith('new '))
+            broken.append(f'[dirs] correspondence: provider model and real provider differ on op #{i}: '
+                          f'{ops[i][:160] if i < len(ops) else "<eof>"} real={strip_ev(hout[i])[:200] if i < len(hout) else None} '
+                          f'model={dout[i][:200] if i < len(dout) else None} (sequence starts at op #{j}: {ops[j][:120]})')
+            rep.cov['dirs_first_disagreement'] = {'sequence': ops[j:i + 1], 'real': strip_ev(hout[i]) if i < len(hout) else None,
+                                                  'model': dout[i] if i < len(dout) else None}
+        rep.cov['dirs_ops_validated'] = len(ops) if (i is None and not err) else (i or 0)
+        st = {}
+        bad = 0
+        for k, (o, h) in enumerate(zip(ops, hout)):
+            m = monitor(o, h, st)
+            if m:
+                rep.violation('[dirs] monitor: ' + m[:3000], {'op': o, 'impl_out': h, 'index': k}, True)
+                found = True
+                bad += 1
+                if bad >= 3:
+                    break
+        rep.cov['dirs_monitor_counts'] = dict(sorted(STATS.items()))
+        per = {}
+        for o in ops:
+            if o.startswith('new '):
+                cur = dict(w.split('=', 1) for w in o.split()[1:])['dir']
+            per[cur] = per.get(cur, 0) + 1
+        rep.cov['dirs_ops_per_provider'] = per
+        rep.note(f'[dirs] op-sequence correspondence on the real providers: {len(ops)} ops {per}, '
+                 f'first disagreement: {i}')
+    # ---- oracle-free PANOC replay
+    fexe, log = build_full_harness()
+    if fexe is None:
+        broken.append('solvers_panoc_full harness does not compile against the working tree: ' + (log or '')[-1200:])
+    else:
+        rng = random.Random(C.seed() * 7919 + (5 if thorough else 3))
+        ops = [gen_full_run(rng).line() for _ in range(8000 if thorough else 1200)]
+        r = replay_full(fexe, ops)
+        rep.cov['evaluations'] += len(r['hout'])
+        rep.cov['loopfull'] = {k: v for k, v in r.items() if k != 'hout'}
+        per = {}
+        its = 0
+        inner = 0
+        for o, h in zip(ops, r['hout']):
+            dname = S.Op.parse(o)['dir']
+            per[dname] = per.get(dname, 0) + 1
+            try:
+                its += S.parse_out(h)['stats'].get('iterations', 0)
+            except Exception:
+                pass
+            inner += h.count(' ; EV i')
+        rep.cov['loopfull'].update(per_provider=per, iterations=its, inner_problem_calls=inner)
+        rep.cov['traces_validated_against_impl'] = rep.cov.get('traces_validated_against_impl', 0) + \
+            (r['n'] - r['bad'] - r['skipped'])
+        rep.note(f'[dirs] oracle-free PANOC replay: {r["n"]} runs {per}, {its} iterations, {inner} problem calls inside '
+                 f'directions, bad={r["bad"]} (cross-check {r["crosscheck"]}), skipped={r["skipped"]}')
+        if r['bad']:
+            if any('crashed' in f for f in r['first']):
+                rep.violation('[dirs] ' + r['first'][0], {'first': r['first']}, True)
+                found = True
+            else:
+                broken.append(f'[dirs] oracle-free PANOC replay: model and real solver differ on {r["bad"]} of {r["n"]} '
+                              f'runs; first: {r["first"][0][:900]}')
+    return found
+
+
+def make_report(tier):
+    import loops
+
+    class DirsReport(loops.LoopReport):
+        """violations are reported as property C09; evidence and replay files are named DIRS"""
+
+        def violation(self, what, payload, has_input=True, key=None):
+            pid = self.pid
+            try:
+                self.pid = self.evid_name
+                return super().violation(what, payload, has_input, key)
+            finally:
+                self.pid = pid
+    return DirsReport('C09', tier, 'DIRS')
+
+
+def main(argv):
+    tier = C.tier_from_argv(argv)
+    rep = make_report(tier)
+    rep.cov['trusted_base'] = TRUSTED
+    rep.cov['rule'] = ('seeded op sequences on the four real provider objects (memory 0..5, n 1..4, both step-size policies, '
+                       'rescale on/off, CBFGS on/off, hessian_vec_factor 0 / ≠ 0 with finite differences / Lagrangian / '
+                       'eval_hess_ψ_prod / manual penalty terms, both failure policies, boxes mixed / none / pinned, ℓ1, '
+                       'rejected updates, wrap-around, γ changes, NaN / inf / zero vectors, apply before initialize, '
+                       'throwing initialize); PANOC runs of checks/c03.gen_run with dir ∈ {noop, lbfgs, slbfgs, anderson} '
+                       'and random provider parameters, replayed without direction oracle')
+    rep.assumptions = ['harness flags pin Eigen evaluation order; Lean Float.cbrt = std::cbrt on ε',
+                       'the providers are used as PANOC uses them (initialize first; after a throwing initialize the '
+                       'object is not used)']
+    broken = []
+    found = extra_stage(rep, broken, None, tier, with_proof=True)
+    for b in broken:
+        rep.note('BROKEN: ' + b[:700])
+    if broken and not found:
+        rep.violation('direction-provider layer no longer shown to match its model / theorems: ' +
+                      '; '.join(b[:300] for b in broken[:4]), {'broken': broken}, has_input=False)
+    if broken:
+        rep.cov['discharged'] = min(rep.cov.get('discharged', 0), max(0, rep.cov['obligations'] - 1))
+    return rep.finish()
+
+
 if __name__ == '__main__':
-    # development entry: correspondence only
-    exe, log = build_harness()
-    assert exe, log
-    seed = int(sys.argv[1]) if len(sys.argv) > 1 else 1
-    N = int(sys.argv[2]) if len(sys.argv) > 2 else 2000
-    rng = random.Random(seed)
-    ops = gen_ops(rng, N)
-    hout, i, dout, err = correspondence(exe, ops)
-    print('ops', len(ops), 'first diff', i, err)
-    if i is not None and i < len(ops):
-        j = max(k for k in range(i + 1) if ops[k].startswith('new '))
-        for k in range(j, i + 1):
-            print('OP', ops[k][:1500])
-            print('  H', strip_ev(hout[k])[:1500])
-            print('  M', dout[k][:1500] if k < len(dout) else None)
-    import collections
-    print(collections.Counter((o.split()[0], strip_ev(h).split(' ', 1)[0]) for o, h in zip(ops, hout)))
+    if '--dev' in sys.argv:
+        exe, log = build_harness()
+        assert exe, log
+        a = [x for x in sys.argv[1:] if x != '--dev']
+        rng = random.Random(int(a[0]) if a else 1)
+        ops = gen_ops(rng, int(a[1]) if len(a) > 1 else 2000)
+        hout, i, dout, err = correspondence(exe, ops)
+        print('ops', len(ops), 'first diff', i, err)
+        if i is not None and i < len(ops) and i < len(hout):
+            j = max(k for k in range(i + 1) if ops[k].startswith('new '))
+            for k in range(j, i + 1):
+                print('OP', ops[k][:1500]); print('  H', strip_ev(hout[k])[:1500])
+                print('  M', dout[k][:1500] if k < len(dout) else None)
+        st = {}
+        nb = 0
+        for o, h in zip(ops, hout):
+            m = monitor(o, h, st)
+            if m:
+                print('MONITOR', m[:2500]); nb += 1
+                if nb > 3:
+                    break
+        print(dict(sorted(STATS.items())))
+        sys.exit(0)
+    sys.exit(main(sys.argv))
